@@ -83,7 +83,18 @@ def rule_eol(model):
             r.finding(fi.where, a, 'the cursor is not advanced by exactly '
                       'the length of the matched line end', node=a, ctx=fi)
     for x in rets:
-        if norm(x.value) != start:
+        mo = None
+        for y in ast.walk(x.value) if x.value is not None else ():
+            if isinstance(y, ast.Call) and isinstance(y.func, ast.Attribute)\
+                    and y.func.attr == 'end':
+                mo = norm(y.func.value)
+        adv = mo is not None and x.value is not None and (
+            lin_eq(x.value, parse_expr(f'{start} + {mo}.end(0) - '
+                                       f'{mo}.start(0)')) or
+            norm(x.value) in (f'{mo}.end(0)', f'{mo}.end()'))
+        if adv:
+            r.instance(fi.where, x, 'advance by match length')
+        if norm(x.value) != start and not adv:
             r.finding(fi.where, x, 'skip_eol does not return the cursor',
                       node=x, ctx=fi)
     return r
@@ -175,6 +186,74 @@ def _is_end_of_match(model, fi, e):
     return mo_loc is not None and mo_loc == mo_tag
 
 
+def _passes_through(model, hfi):
+    """The helper returns its first parameter or that parameter's
+    `simple_form` on every path."""
+    p = hfi.params()[0] if hfi.params() else None
+    if p is None:
+        return False
+    rets = [n for n in own_nodes(hfi.node) if isinstance(n, ast.Return)]
+    if not rets:
+        return False
+
+    def ok(e, depth=0):
+        if isinstance(e, ast.Name) and e.id == p:
+            ds = model.local_defs(hfi, p)
+            return all(d == 'param' or (not isinstance(d, (str, tuple))
+                                        and ok(d, depth + 1))
+                       for d in ds) if depth < 3 else False
+        if isinstance(e, ast.Name) and depth < 3:
+            ds = model.local_defs(hfi, e.id)
+            return bool(ds) and all(not isinstance(d, (str, tuple)) and
+                                    ok(d, depth + 1) for d in ds)
+        if isinstance(e, ast.Attribute) and e.attr == 'simple_form':
+            return isinstance(e.value, ast.Name) and (
+                e.value.id == p or ok(e.value, depth + 1))
+        if isinstance(e, ast.IfExp):
+            return ok(e.body, depth + 1) and ok(e.orelse, depth + 1)
+        return False
+    return all(x.value is not None and ok(x.value) for x in rets)
+
+
+def _classify(model, fi, a, text, depth, _busy=None):
+    kinds = set()
+    _busy = _busy or set()
+    srcs = [a]
+    if isinstance(a, ast.Name):
+        srcs = [d for d in model.local_defs(fi, a.id)]
+    for d in srcs:
+        if d == 'param' and isinstance(a, ast.Name) and a.id == text:
+            kinds.add('slice')
+        elif isinstance(d, (str, tuple)):
+            kinds.add('other')
+        elif isinstance(d, ast.Subscript) and \
+                isinstance(d.slice, ast.Slice) and norm(d.value) == text:
+            kinds.add('slice')
+        elif isinstance(d, ast.Call) and isinstance(d.func, ast.Name) and \
+                d.func.id in ('command', 'scommand'):
+            kinds.add('command')
+        elif isinstance(d, ast.Attribute) and d.attr == 'simple_form':
+            kinds.add('command')
+        elif isinstance(d, ast.Tuple):
+            kinds.add('section')
+        elif isinstance(d, ast.Call) and len(d.args) == 1 and \
+                not d.keywords and depth < 3:
+            tg = model.resolve_callee(d.func, fi)
+            hfi = tg[0][1] if len(tg) == 1 and tg[0][0] == 'func' else None
+            if id(d) in _busy:
+                continue        # r = helper(r): judged at the outer level
+            sub = _classify(model, fi, d.args[0], text, depth + 1,
+                            _busy | {id(d)})
+            if hfi is not None and _passes_through(model, hfi) and \
+                    sub == {'command'}:
+                kinds.add('command')
+            else:
+                kinds.add('TRANSFORMED:' + norm(d))
+        else:
+            kinds.add('TRANSFORMED:' + norm(d))
+    return kinds
+
+
 def rule_provenance(model):
     r = RuleResult('C01.R3', 'literal text is appended to the block lists '
                    'as plain slices of the source, rendered unchanged and '
@@ -188,31 +267,7 @@ def rule_provenance(model):
                     and c.func.attr == 'append' and \
                     norm(c.func.value) in ('result', 'blocks') and c.args:
                 a = c.args[0]
-                kinds = set()
-                srcs = [a]
-                if isinstance(a, ast.Name):
-                    srcs = [d for d in model.local_defs(fi, a.id)]
-                for d in srcs:
-                    if d == 'param' and isinstance(a, ast.Name) and \
-                            a.id == text:
-                        kinds.add('slice')
-                    elif isinstance(d, (str, tuple)):
-                        kinds.add('other')
-                    elif isinstance(d, ast.Subscript) and \
-                            isinstance(d.slice, ast.Slice) and \
-                            norm(d.value) == text:
-                        kinds.add('slice')
-                    elif isinstance(d, ast.Call) and \
-                            isinstance(d.func, ast.Name) and \
-                            d.func.id in ('command', 'scommand'):
-                        kinds.add('command')
-                    elif isinstance(d, ast.Attribute) and \
-                            d.attr == 'simple_form':
-                        kinds.add('command')
-                    elif isinstance(d, ast.Tuple):
-                        kinds.add('section')
-                    else:
-                        kinds.add('TRANSFORMED:' + norm(d))
+                kinds = _classify(model, fi, a, text, 0)
                 bad = [k for k in kinds if k.startswith('TRANSFORMED')
                        or k == 'other']
                 r.instance(fi.where, c, '/'.join(sorted(kinds)))
